@@ -160,6 +160,12 @@ def gen(rng, ne, ns):
             # the same Simulation object runs the Monte Carlo or the sequential entry point once per unit (each run starts from the reset system): nothing of the
             # first run - its time grid in particular - may leak into the second
             cases[-1]["entry"] = rng.choice(["mc", "seq"]); cases[-1]["reuse"] = True; cases[-1]["step_unit"] = None
+    # one long run (more than a month of 6 h steps) with an EV park whose table varies over the day, minutes against hours: the hour of
+    # day after whole months have been subtracted
+    spec = net.rand_feeder_spec(rng, max_lines=3, ctrl="manual", allow_tie=False, allow_mg=False)
+    fd = spec["feeders"][0]
+    fd["ev"] = {str(rng.randrange(len(fd["parent"]))): {"hours": list(range(24)), "table": [str((3 * h) % 7 + 1) for h in range(24)], "v2g": True}}
+    cases.append({"kind": "seeded", "spec": spec, "n_inc": 150, "dt": "6", "seed": rng.randint(0, 10 ** 6), "rate": 120.0, "units": [2], "entry": "seq", "step_unit": None})
     return cases
 
 
